@@ -184,6 +184,13 @@ type CrashClassifier interface {
 	ClassifyCrash(c Case, stderr string, exitErr string) []Violation
 }
 
+// Optional: a property whose harness callbacks write plain memory on purpose, so that the race detector
+// acts as a second isolation monitor (C11): races between two harness accesses are then signals, not bugs
+// of the machinery.
+type HarnessRaceSignals interface {
+	HarnessRacesAreSignals() bool
+}
+
 // Optional: post-processing over all results (e.g. cross-case checks).
 type Finisher interface {
 	Finish(tier string, results []*CaseResult, agg *Aggregate)
@@ -667,6 +674,14 @@ func runChild(p Property, c Case, exe, tmpRoot, tier string) (*CaseResult, bool)
 	}
 	// race reports
 	for _, rr := range CollectRaceReports(dir) {
+		if hs, ok := p.(HarnessRaceSignals); ok && hs.HarnessRacesAreSignals() {
+			rr.Key = strings.TrimPrefix(rr.Key, "HARNESS:")
+		}
+		if strings.HasPrefix(rr.Key, "HARNESS:") {
+			res.Inconclusive++
+			res.Note("HARNESS-RACE (both accesses in harness code, not a property verdict): %s\n%s", rr.Key, rr.Text)
+			continue
+		}
 		res.Violations = append(res.Violations, Violation{Kind: "race", Sig: rr.Key, Detail: rr.Text})
 		res.Stats["race_reports"]++
 	}
